@@ -166,7 +166,11 @@ def run(ctx: Context) -> None:
     cl = [a for a in augs if "Content-Length" in ast.unparse(a)]
     te = [a for a in augs if "Transfer-Encoding" in ast.unparse(a)]
     okf = okf and len(cl) == 1 and len(te) == 1 and "isinstance(content,bytes)" in guard_atoms(guards_of(cl[0])) and "not:isinstance(content,bytes)" in guard_atoms(guards_of(te[0]))
-    clv = [norm(a) for a in ctx.prov.expand(ast.Name(id="content_length", ctx=ast.Load()), inc, cl[0])] if cl else []
+    # the appended Content-Length value, through a temporary of any name or written in place
+    clx = None
+    if cl and isinstance(cl[0].value, (ast.List, ast.Tuple)) and len(cl[0].value.elts) == 1 and isinstance(cl[0].value.elts[0], ast.Tuple) and len(cl[0].value.elts[0].elts) == 2:
+        clx = cl[0].value.elts[0].elts[1]
+    clv = [norm(a) for a in ctx.prov.expand(clx, inc, cl[0])] if clx is not None else []
     rep.ob("C03.R6", "shared|include_request_headers|framing", okf and clv == ["str(len(content)).encode('ascii')"], where(inc),
            "Content-Length (bytes body, = len) / Transfer-Encoding: chunked (iterator body) are appended only when both are absent and a body is given")
     rets = [norm(r.value) for r in own_nodes(inc.node) if isinstance(r, ast.Return) and r.value is not None]
@@ -328,5 +332,8 @@ def run(ctx: Context) -> None:  # noqa: F811
     if ctx.rep._borrow is not None:
         return          # already running as a lender: no chains
     with ctx.rep.borrow({"C19.R6": ("C03.R11", "the Host header (and the HTTP/2 :authority derived from it) that is supplied when the caller gave none names the URL's authority - "
-                                                "host alone iff the port is absent or the scheme's own default:")}):
+                                                "host alone iff the port is absent or the scheme's own default:"),
+                         "C19.R8": ("C03.R12", "the request line / :path of EVERY transmission carries the caller's target: URL and Origin objects are never written to after construction - "
+                                               "`enforce_url` hands the caller's own URL instance through, so a store into it (e.g. the `target` extension) changes the target of every "
+                                               "later request built from the same object:")}):
         c19.run(ctx)
